@@ -10,6 +10,8 @@ const WhopLocSymbol = Symbol("whopper-location")
 type WhopLoc struct {
 	Method  *Method
 	Current int
+	// Args are the arguments the running wrapper was called with.
+	Args List
 }
 
 // String representation of the Object.
@@ -51,7 +53,7 @@ func (wl *WhopLoc) Continue(s *Scope, args List, depth int) Object {
 			continue
 		}
 		ws := s.NewScope()
-		ws.Let("~whopper-location~", &WhopLoc{Method: wl.Method, Current: i})
+		ws.Let("~whopper-location~", &WhopLoc{Method: wl.Method, Current: i, Args: args})
 		return wrap.Call(ws, args, depth+1)
 	}
 	return wl.Method.InnerCall(s, args, depth)
